@@ -585,6 +585,7 @@ func (node *SetFunctionNode) TypeTransform(s SymbolTypes) (Node, error) {
 		if node.setFunction == SetFunctionCount {
 			return &CountSetExprNode{
 				symbol: symbol,
+				query:  query,
 			}, nil
 		}
 		if node.setFunction == SetFunctionIsEmpty {
